@@ -207,6 +207,18 @@ mutual
         let r := genFs fs i (c + 1)
         -- canonical values of a guarded element: everything unset when the guard fields are
         if guardOff mode fs r.1 then (.record (decFs h.ns nullNode fs), r.2) else (.record r.1, r.2)
+    | .formValue _ names _ _ kinds _ _ ofs optFor =>
+      let ti := pick i c names.length
+      let k := kinds.getD ti 0
+      let w : Val :=
+        if k == 1 then .flag (present i (c + 1))
+        else if k == 2 then .list ((List.range (pick i (c + 1) 4)).map fun j => Val.str (pool[pick i (c + 2 + j) pool.size]!).toList)
+        else if present i (c + 1) then .str (pool[pick i (c + 2) pool.size]!).toList   -- includes the empty, non-null string
+        else .absent
+      if optFor.contains ti then
+        let r := genItems ofs i (c + 8) (pick i (c + 7) 3)
+        (.record [.nat ti, w, .list r.1], r.2)
+      else (.record [.nat ti, w, .list []], c + 8)
     | .strSet _ =>
       let n := if present i c then 1 + pick i (c + 1) 4 else 0
       let members := (List.range n).map fun k => (pool[pick i (c + 2 + k) pool.size]!).toList
@@ -235,7 +247,15 @@ end
 def regression (cls : String) : List (List Val) :=
   let fast : List Val := [.list [], .flag true]                       -- tls0rtt lost before /repo e3c2af8
   let sasl2 : List Val := [.list [], .record [.absent, .record fast, .absent]]
-  if cls == "FastFeature" then [fast]
+  -- a data form field with an empty, non-null value (<value/>): read back as null today (recorded finding)
+  let form : Val := .record [.opt (some 1), .record [.str []], .record [.str []],
+    .list [.record [.record [.nat 9, .str [], .list []], .str [], .str "a".toList, .record [.str []], .absent]]]
+  let rsm : Val := .record [.record [.opt none], .absent, .absent, .record [.opt none]]
+  if cls == "DataForm" || cls == "MucOwnerIq" then [[form]]
+  else if cls == "DiscoInfoIq" then [[.str [], .list [], .list [], form]]
+  else if cls == "DiscoItemsIq" then [[.str [], .list [], form]]
+  else if cls == "MamQueryIq" then [[.str [], .str [], form, rsm]]
+  else if cls == "FastFeature" then [fast]
   else if cls == "Sasl2StreamFeature" then [sasl2]
   else if cls == "StreamFeatures" then
     [[.absent, .absent, .absent, .absent, .absent, .absent, .absent, .absent, .absent,
@@ -263,6 +283,7 @@ mutual
     | .child h fs _ => h.tag :: tagsFs fs
     | .many h fs _ => h.tag :: tagsFs fs
     | .strSet h => [h.tag]
+    | .formValue _ _ _ vh _ _ oh ofs _ => vh.tag :: oh.tag :: tagsFs ofs
     | _ => []
   partial def tagsFs : List Field → List Str
     | [] => []
